@@ -22,37 +22,35 @@ theorem C08_writer_fresh (checks : List (Check σ)) (s1 s2 : List σ) :
     (writerInit checks s1).1.sts = (writerInit checks s2).1.sts ∧ (writerInit checks s1).2 = (writerInit checks s2).2 :=
   ⟨rfl, rfl⟩
 
-/-- one run's outcome and the state it leaves do not depend on the state it starts from -/
-theorem C08_run_fresh (cols : List Column) (checks : List (Check σ)) (pad : Row → Row) (s1 s2 : List σ)
-    (r : Run) (h : r.isValidate0 = false) :
+/-- one run's outcome and the state it leaves do not depend on the state it starts from - reads, writes, and
+`validate(…, validate_until=0)`, which calls `rows()` without ever requesting a row (since the repair that makes
+`rows()` reset at once) -/
+theorem C08_run_fresh (cols : List Column) (checks : List (Check σ)) (pad : Row → Row) (s1 s2 : List σ) (r : Run) :
     runOne cols checks pad s1 r = runOne cols checks pad s2 r := by
   cases r with
   | read cfg fault rows close => rfl
   | write header rows close => rfl
-  | validate0 => simp [Run.isValidate0] at h
+  | validate0 => rfl
 
-/-- For any history of reads and writes on one CID — runs that ended in an error, were abandoned
-(a read of the consumed prefix) or were never closed included — every run's outcome equals the
-outcome of the same run on a freshly loaded CID, whatever state the history started from.
-Partial: histories containing `validate(…, validate_until=0)` are excluded, see the counterexample. -/
-theorem C08_history_partial (cols : List Column) (checks : List (Check σ)) (pad : Row → Row)
-    (sts : List σ) (runs : List Run) (h : ∀ r ∈ runs, r.isValidate0 = false) :
+/-- **For any history of runs on one CID** - reads, writes, runs that ended in an error, were abandoned (a read of the
+consumed prefix), were never closed, or validated no row at all - every run's outcome equals the outcome of the same
+run on a freshly loaded CID, whatever state the history started from. -/
+theorem C08_history (cols : List Column) (checks : List (Check σ)) (pad : Row → Row) (sts : List σ) (runs : List Run) :
     runHistory cols checks pad sts runs =
       runs.map (fun r => (runOne cols checks pad (checks.map (·.reset)) r).1) := by
   induction runs generalizing sts with
   | nil => rfl
   | cons r rs ih =>
     simp only [runHistory, List.map_cons]
-    rw [C08_run_fresh cols checks pad sts (checks.map (·.reset)) r (h r (by simp))]
+    rw [C08_run_fresh cols checks pad sts (checks.map (·.reset)) r]
     congr 1
-    exact ih _ (fun r' hr' => h r' (by simp [hr']))
+    exact ih _
 
-/-- The full statement fails for `validate(cid, data, validate_until=0)`: its end-of-data verdict is
-computed on the state left by the previous run (known finding C08:validate-until-0:stale-end-check). -/
-theorem C08_validate0_counterexample :
-    ∃ (checks : List (Check CState)) (s1 s2 : List CState),
-      (runOne [] checks id s1 .validate0).1 ≠ (runOne [] checks id s2 .validate0).1 :=
-  ⟨[distinctCountCheck 0 .lt 2], [.distinct []], [.distinct [['a'], ['b'], ['c']]], by decide⟩
+/-- `validate(cid, data, validate_until=0)` after any history: the end-of-data verdict is the one of a data set
+without rows (before the repair it was computed on the state left by the previous run: finding
+C08:validate-until-0:stale-end-check, fixed) -/
+theorem C08_validate0_fresh (cols : List Column) (checks : List (Check σ)) (pad : Row → Row) (sts : List σ) :
+    (runOne cols checks pad sts .validate0).1 = { closeFail := (closeValidator checks (checks.map (·.reset))).1 } := rfl
 
 /-- non-vacuity: a history of an unclosed read with duplicates, a write and a clean read -/
 example :
